@@ -555,3 +555,667 @@ def env_cases(rng, tier, tree):
         cs.append(_read_error(tree, e))
     cs.append(K.mk(tree, 'GET', p0, [('Origin', 'http://a')], app='err:' + C.hx('boom'), kind='route-under-config'))
     return cs
+
+# ================================================================================================ second audit pass
+# The escapes after the first pass were FEATURES (an interim answer, an extra header, a head budget), each needing a RELATION between
+# two inputs or an observation point nobody looked at.  The families below produce such relations for the features a maintainer of a
+# static web server plausibly adds next on the path every response takes: persistent connections / pipelining, precompressed and
+# negotiated neighbour files, conditional requests, request-body integrity and codings, proxy / method-override / fetch-metadata
+# header pairs, caches and limiters (histories), custom error pages, error handling on a failing transport.
+import hashlib, base64, gzip as _gzip, zlib as _zlib, time as _time
+
+# ------------------------------------------------------------------------------------------------ oracle: every response on the wire
+def _next_response_offset(chunk):
+    """chunk starts with a response head; offset in chunk where ANOTHER response starts, or None.  Only unambiguous framing counts:
+    an interim (1xx) or length-less answer directly followed by a status line; a declared length followed by a status line; a head
+    without its body (HEAD / OPTIONS) followed by a status line."""
+    i = chunk.find(b'\r\n\r\n')
+    if i < 0: return None
+    head = lenient_parse(chunk[:i + 4])
+    if head is None: return None
+    rest = chunk[i + 4:]
+    cl = H.get(head['headers'], 'Content-Length')
+    nxt = lambda off: off if re.match(rb'HTTP/\d\.\d \d{3}[ \r]', chunk[off:off + 14]) and lenient_parse(chunk[off:]) is not None else None
+    if 100 <= head['status'] < 200 or len(cl) != 1 or not cl[0].isdigit():
+        return nxt(i + 4)
+    n = int(cl[0])
+    if len(rest) == n: return None
+    if len(rest) > n: return nxt(i + 4 + n)
+    return nxt(i + 4)
+
+def wire_responses(raw, limit=16):
+    """the responses a byte stream holds one after the other (each as lenient_parse gives it); the first is the stream itself"""
+    out, pos = [], 0
+    while pos < len(raw) and len(out) < limit:
+        resp = lenient_parse(raw[pos:])
+        if resp is None: break
+        out.append(resp)
+        off = _next_response_offset(raw[pos:])
+        if off is None or off <= 0: break
+        pos += off
+    return out
+
+# ------------------------------------------------------------------------------------------------ trees of the second pass
+def _lorem(n, salt=0):
+    words = [b'static', b'server', b'header', b'cache', b'range', b'origin', b'vary', b'nosniff', b'frame', b'hint']
+    out = bytearray()
+    k = salt
+    while len(out) < n:
+        out += words[k % len(words)] + (b' ' if k % 7 else b'\n'); k += 3
+    return bytes(out[:n])
+
+def neighbour_tree(rng, tier):
+    """files with NEIGHBOURS a negotiating server would look for: precompressed sidecars (.gz .br .zst: valid, empty, larger than the
+    original, made before and after it, without an original), other formats of an image, language variants of a page, of a directory
+    index, of the .html fallback; large compressible and incompressible files; dot files and other names a server may refuse"""
+    t = S.Tree(b'lvl0/root')
+    root = b'lvl0/root/'
+    t.file(b'lvl0/secret.txt', S.marker(b'lvl0/secret.txt') + b'\n')
+    gz = lambda b: _gzip.compress(b, 6, mtime=0)
+    names = []
+    def f(nm, content): t.file(root + nm, content); names.append(nm)
+    a = _lorem(3000, 1)
+    f(b'doc/a.txt', a); f(b'doc/a.txt.gz', gz(a)); f(b'doc/a.txt.br', b'\x1b\x0b\x00\xf8' + a[:40]); f(b'doc/a.txt.zst', b'\x28\xb5\x2f\xfd' + a[:40])
+    b = b'<html><body>' + _lorem(1500, 2) + b'</body></html>'
+    f(b'doc/b.html.gz', gz(b)); f(b'doc/b.html', b)                                 # sidecar made BEFORE the original
+    f(b'doc/c.css', b'body { margin: 0 }' * 80)                                       # no sidecar
+    f(b'doc/c.js', b'function f() { return 1 }\n' * 60); f(b'doc/c.js.gz', b'')       # empty sidecar
+    f(b'doc/d.svg', b'<svg xmlns="http://www.w3.org/2000/svg">' + b'<g/>' * 300 + b'</svg>'); f(b'doc/d.svgz', gz(b'<svg/>'))
+    e = b'{"a":1}'
+    f(b'doc/e.json', e); f(b'doc/e.json.gz', gz(e) + b'\x00' * 64)                     # sidecar larger than the original
+    f(b'doc/only.txt.gz', gz(b'only the sidecar exists'))
+    f(b'doc/g.txt', b'x'); t.dir(root + b'doc/g.txt.gz')                              # a DIRECTORY under the sidecar's name
+    f(b'doc/h.txt', _lorem(2000, 4)); t.link(root + b'doc/h.txt.gz', b'a.txt.gz')     # a link under the sidecar's name
+    names.append(b'doc/h.txt.gz')
+    f(b'img/pic.png', b'\x89PNG\r\n\x1a\n' + bytes(range(256)) * 4); f(b'img/pic.webp', b'RIFF\x00\x00\x00\x00WEBPVP8 ' + bytes(100)); f(b'img/pic.avif', b'\x00\x00\x00\x1cftypavif' + bytes(100))
+    f(b'img/pic.png.webp', b'RIFF\x00\x00\x00\x00WEBPVP8L' + bytes(50)); f(b'img/pic@2x.png', b'\x89PNG\r\n\x1a\n' + bytes(300)); f(b'img/photo.jpg', b'\xff\xd8\xff\xe0' + bytes(range(256)) * 8)
+    f(b'lang/page.html', b'<p>page</p>'); f(b'lang/page.de.html', b'<p>Seite</p>'); f(b'lang/page.html.de', b'<p>Seite 2</p>'); f(b'lang/page.html.fr', b'<p>page fr</p>'); f(b'lang/page.html.en', b'<p>page en</p>')
+    f(b'lang/index.html', b'<p>index</p>'); f(b'lang/index.de.html', b'<p>Index de</p>'); f(b'lang/index.html.de', b'<p>Index de 2</p>')
+    f(b'gzidx/index.html', b'<p>index ' + _lorem(1200, 5) + b'</p>'); f(b'gzidx/index.html.gz', gz(b'<p>index</p>'))
+    f(b'fb/about.html', b'<p>about ' + _lorem(1200, 6) + b'</p>'); f(b'fb/about.html.gz', gz(b'<p>about</p>')); f(b'fb/about.gz', gz(b'<p>about 2</p>'))
+    f(b'big/text.txt', _lorem(20000, 7)); f(b'big/rand.bin', rng.bytes(20000)); f(b'big/tiny.txt', b'0123456789'); f(b'big/k1023.txt', b'a' * 1023); f(b'big/k1024.txt', b'a' * 1024); f(b'big/k1025.txt', b'a' * 1025)
+    f(b'big/text.txt.gz', gz(_lorem(20000, 7)))
+    t.file(root + b'big/m1.bin', bytes((j * 131 + (j >> 8) * 29 + (j >> 16) * 7) & 0xff for j in range((1 << 20) + 1)))     # above every plausible "large file" threshold (not in names: asked a few times only)
+    for nm in (b'.env', b'.htaccess', b'.htpasswd', b'.git/config', b'.git/HEAD', b'.well-known/security.txt', b'.DS_Store', b'sub/.hidden/x.txt', b'web.config', b'backup.txt~', b'~backup.txt', b'a.txt.bak', b'a.txt.swp',
+               b'admin/index.html', b'private/x.txt', b'cgi-bin/run.sh', b'WEB-INF/web.xml', b'server-status', b'Thumbs.db', b'dump.sql', b'id_rsa', b'cert.pem', b'composer.lock', b'node_modules/p/package.json'):
+        f(nm, b'content of ' + nm)
+    f(b'htm/index.htm', b'<p>index.htm only</p>'); f(b'upper/INDEX.HTML', b'<p>upper index</p>'); f(b'deflt/default.html', b'<p>default</p>'); f(b'both/index.html', b'<p>html</p>'); f(b'both/index.htm', b'<p>htm</p>')
+    f(b'Case/File.TXT', b'case'); f(b'dl/report.pdf', b'%PDF-1.4\n' + bytes(200)); f(b'dl/archive.zip', b'PK\x03\x04' + bytes(200)); f(b'dl/data.csv', b'a,b\n1,2\n'); f(b'dl/setup.exe', b'MZ' + bytes(100))
+    t.names = names
+    t.dirs_asked = ['/doc', '/doc/', '/lang', '/lang/', '/gzidx', '/gzidx/', '/fb/about', '/htm', '/htm/', '/upper/', '/deflt/', '/both/', '/doc/only.txt', '/lang/page', '/img/pic', '/case/file.txt', '/CASE/FILE.TXT',
+                    '/.git', '/.git/', '/.well-known/', '/admin', '/admin/', '/private/', '/doc/a.txt.gz/', '/doc/g.txt.gz', '/doc/a', '/big/text']
+    return t
+
+AE = ['gzip', 'br', 'gzip, deflate, br, zstd', 'gzip, deflate', 'identity', '*', 'gzip;q=0', 'gzip;q=0, *;q=1', 'gzip;q=0.5, br;q=1.0', 'zstd', 'deflate', 'GZIP', 'x-gzip', '', 'gzip,br', 'br;q=1, gzip;q=0.1, identity;q=0',
+      'identity;q=0', '*;q=0', 'compress', 'gzip ', 'dcb, dcz, gzip']
+ACCEPT_IMG = ['image/avif,image/webp,image/apng,image/svg+xml,image/*,*/*;q=0.8', 'image/webp,*/*', 'image/webp', 'image/avif', '*/*', 'image/png', 'image/*', 'image/webp;q=0', 'text/html']
+ACCEPT_LANG = ['de', 'de-DE,de;q=0.9,en;q=0.8', 'fr', 'en', '*', '', 'de;q=0', 'fr-CH, fr;q=0.9, en;q=0.8, de;q=0.7, *;q=0.5', 'DE', 'xx', 'en-US,en;q=0.5']
+QUERIES = ['?v=1', '?v=8f14e45fceea167a5a36dedd4bea2543', '?ver=1.2.3', '?_=1700000000000', '?nocache=1', '?download', '?download=1', '?dl=1', '?raw=1', '?format=json', '?callback=cb', '?lang=de', '?inline', '?attachment=report.pdf',
+           '?w=100&h=100', '?gzip=1', '?cache=1', '?immutable', '?t=0', '?preview']
+
+WELL_KNOWN = ['/health', '/healthz', '/livez', '/readyz', '/ping', '/status', '/metrics', '/version', '/info', '/stats', '/server-info', '/_health', '/api/health', '/robots.txt', '/sitemap.xml', '/humans.txt', '/security.txt',
+              '/.well-known/security.txt', '/.well-known/change-password', '/.well-known/acme-challenge/token', '/.well-known/', '/manifest.json', '/manifest.webmanifest', '/site.webmanifest', '/sw.js', '/service-worker.js', '/browserconfig.xml',
+              '/apple-touch-icon.png', '/apple-touch-icon-precomposed.png', '/favicon.ico', '/favicon.png', '/index.htm', '/index.php', '/default.html', '/crossdomain.xml', '/ads.txt', '/file-upload', '/file-upload/', '/file-upload/chunk',
+              '/file-upload/chunk?name=a&index=0', '/file-upload/complete', '/file-upload/complete?name=a', '/file-upload/status?name=a', '/file-upload/cancel?name=a', '/file-upload/initiate/', '/upload', '/form', '/form-post-method',
+              '/form-get-method/', '/form-url-encoded-enctype-post-method/', '/script.js.map', '/style.css.map', '/style.min.css', '/script.min.js', '/favicon.svg/', '/static', '/static/', '/assets/', '/logo', '/README.md', '/LICENSE',
+              '/CONFIGURE.md', '/configure', '/configure.html', '/rws.config.toml', '/rws.command_line', '/rws.variables', '/Cargo.toml', '/404', '/500', '/error', '/login', '/logout', '/admin', '/api', '/api/', '/graphql', '/events', '/ws', '/socket.io/']
+def negotiation_neighbours(rng, tier, tree):
+    """Accept-Encoding / Accept / Accept-Language x a file that HAS the neighbour a negotiating server would pick (and one that has not);
+    the same for the directory index and the .html fallback; with Range / If-Range / HEAD / Origin, since a negotiated answer is built
+    on another path; versioned and download-style query strings on every kind of file; names a server may refuse or hide"""
+    cs = []
+    q = tier == 'quick'
+    comp = ['/doc/a.txt', '/doc/b.html', '/doc/c.css', '/doc/c.js', '/doc/d.svg', '/doc/e.json', '/doc/only.txt', '/doc/g.txt', '/doc/h.txt', '/gzidx/', '/gzidx', '/fb/about', '/fb/about.html', '/big/text.txt', '/big/rand.bin',
+            '/big/tiny.txt', '/big/k1023.txt', '/big/k1024.txt', '/big/k1025.txt', '/doc/a.txt.gz', '/', '/style.css', '/script.js', '/missing', '/missing.txt', '/form-get-method?a=b', '/img/pic.png', '/dl/archive.zip']
+    for t in comp:
+        for ae in AE:
+            for m in ('GET', 'HEAD', 'OPTIONS', 'POST'):
+                if m in ('OPTIONS', 'POST') and not rng.chance(1, 6): continue
+                if q and t not in ('/doc/a.txt', '/doc/b.html', '/big/text.txt', '/gzidx/', '/fb/about') and not rng.chance(1, 4): continue
+                if q and m == 'HEAD' and not rng.chance(1, 2): continue
+                hs = [('Accept-Encoding', ae)]
+                k = rng.below(10)
+                if k == 0: hs.append(('Range', 'bytes=0-9'))
+                elif k == 1: hs = [('Origin', 'http://a')] + hs
+                elif k == 2: hs = [('accept-encoding', ae)]
+                elif k == 3: hs += [('Range', 'bytes=0-0,2-3')]
+                elif k == 4: hs += [('TE', 'gzip'), ('Connection', 'TE')]
+                elif k == 5: hs += [('Accept-Encoding', 'identity')]
+                elif k == 6: hs += [('User-Agent', UA['ie8'])]                    # old browsers are exempted from compression by habit
+                elif k == 7: hs += [('Cache-Control', 'no-transform')]
+                cs.append(K.mk(tree, m, t, hs, version='HTTP/1.0' if rng.chance(1, 10) else 'HTTP/1.1', entry=_e4(rng), kind='negotiation-encoding'))
+    for t in ('/img/pic.png', '/img/pic', '/img/pic@2x.png', '/img/photo.jpg', '/img/pic.webp', '/doc/d.svg', '/favicon.svg', '/missing.png'):
+        for a in ACCEPT_IMG:
+            for extra in ([], [('Save-Data', 'on')], [('DPR', '2.0'), ('Width', '320'), ('Viewport-Width', '640')], [('Sec-CH-DPR', '2.0'), ('Sec-CH-Width', '320')], [('Sec-Fetch-Dest', 'image')], [('Range', 'bytes=0-9')]):
+                if q and (extra or t != '/img/pic.png') and not rng.chance(1, 4): continue
+                cs.append(K.mk(tree, rng.choice(['GET', 'GET', 'HEAD']), t, [('Accept', a)] + extra, entry=_e4(rng), kind='negotiation-type'))
+    for t in ('/lang/page.html', '/lang/page', '/lang/', '/lang', '/lang/index.html', '/', '/missing', '/doc/b.html'):
+        for al in ACCEPT_LANG:
+            for extra in ([], [('Cookie', 'lang=de')], [('Accept', 'text/html')], [('Origin', 'http://a')]):
+                if q and (extra or t not in ('/lang/page.html', '/lang/')) and not rng.chance(1, 4): continue
+                cs.append(K.mk(tree, rng.choice(['GET', 'GET', 'HEAD']), t, [('Accept-Language', al)] + extra, entry=_e4(rng), kind='negotiation-language'))
+    # a file above every plausible threshold for another way of sending (streaming, blocks, no in-memory copy)
+    for m, hs in (('GET', []), ('HEAD', []), ('GET', [('Range', 'bytes=0-0')]), ('GET', [('Range', 'bytes=1048570-')]), ('GET', [('Origin', 'http://a'), ('Accept-Encoding', 'gzip')]), ('OPTIONS', [('Origin', 'http://a')]), ('GET', [('Range', 'bytes=0-0,1048576-1048576')])):
+        for e in (('proc', 'preq') if not hs or q else ENTRIES):
+            cs.append(K.mk(tree, m, '/big/m1.bin', hs, entry=e, kind='large-file'))
+    # routes a maintainer may add next (health, metrics, the further steps of the upload, well-known files): answered on a path of their own from the first day
+    for t in WELL_KNOWN:
+        for m in ('GET', 'HEAD', 'OPTIONS', 'POST', 'PUT', 'DELETE'):
+            if m not in ('GET', 'POST') and not rng.chance(1, 4): continue
+            if q and m == 'POST' and not rng.chance(1, 2): continue
+            hs = rng.choice([[], [], [('Origin', 'http://a')], [('Accept', 'application/json')], [('User-Agent', 'kube-probe/1.29')], [('Content-Type', 'application/json'), ('Content-Length', '2')]])
+            cs.append(K.mk(tree, m, t, hs, b'{}' if hs and hs[0][0] == 'Content-Type' else b'', entry=_e4(rng), kind='plausible-route'))
+    # a directory (with and without an index) x what the client accepts: a listing is a new answer
+    for t in tree.dirs_asked + ['/', '/img/', '/big/', '/dl/', '/doc/?C=M;O=D', '/dl/?format=json', '/img?list']:
+        for hs in ([('Accept', 'application/json')], [('Accept', 'text/html')], [('Accept', 'text/plain')], [('Accept', '*/*'), ('User-Agent', UA['curl'])], [('X-Requested-With', 'XMLHttpRequest')], [('Accept', 'application/xml')]):
+            if not rng.chance(1, 3 if q else 1): continue
+            cs.append(K.mk(tree, rng.choice(['GET', 'GET', 'HEAD', 'PROPFIND']), t, hs, entry=_e4(rng), kind='directory-x-accept'))
+    files = [_p(n) for n in tree.names]
+    for t in files:
+        for qs in QUERIES:
+            if not rng.chance(1, 12 if q else 3): continue
+            cs.append(K.mk(tree, rng.choice(['GET', 'GET', 'HEAD', 'OPTIONS']), t + qs, [('Origin', 'http://a')] if rng.chance(1, 4) else [], entry=_e4(rng), kind='versioned-asset'))
+    # every name and directory of the tree, bare, with credentials and with a browser's navigation headers (a server that starts to refuse
+    # or to hide names answers them on a new path)
+    for t in files + tree.dirs_asked:
+        for hs in ([], [('Authorization', 'Basic dXNlcjpwYXNz')], [('Authorization', 'Basic !!!')], [('Authorization', 'Bearer x.y.z')], [('Cookie', 'session=abc')], [('Referer', 'http://other.example/')],
+                   [('Sec-Fetch-Site', 'cross-site'), ('Sec-Fetch-Dest', 'iframe')], [('X-Forwarded-For', '203.0.113.7')]):
+            dotted = '/.' in t or t.startswith(('/admin', '/private', '/cgi-bin', '/WEB-INF', '/server-status')) or t.endswith(('~', '.bak', '.swp', '.sql', '.pem', 'id_rsa', '.config', '.db', '.lock'))
+            if hs and not dotted and not rng.chance(1, 10): continue
+            if q and hs and not rng.chance(1, 2): continue
+            for m in ('GET', 'HEAD', 'OPTIONS', 'POST', 'PUT', 'DELETE'):
+                if m != 'GET' and not rng.chance(1, 6): continue
+                cs.append(K.mk(tree, m, t, hs, entry=_e4(rng), kind='guarded-name'))
+    return cs
+
+# ------------------------------------------------------------------------------------------------ persistent connections
+def connection_relations(rng, tier, tree, pad_to=None):
+    """what FOLLOWS the first request on the stream x Connection / Keep-Alive / version x the request buffer (exactly the first request: a
+    server that reads again gets the rest; larger: both requests lie in one buffer; a little larger: the second request is cut):
+    a server that keeps a connection open answers more than once per connection, and each answer is a response"""
+    cs = []
+    q = tier == 'quick'
+    p0 = _p(tree.names[0])
+    ue = [('Content-Type', 'application/x-www-form-urlencoded'), ('Content-Length', '3')]
+    firsts = [('GET', p0, [], b''), ('HEAD', p0, [], b''), ('GET', '/missing', [], b''), ('POST', UE, ue, b'a=1'), ('OPTIONS', p0, [('Origin', 'http://a')], b''), ('GET', '/', [], b''), ('GET', 'x', [], b''),
+              ('GET', '/size/k9999.txt', [('Range', 'bytes=0-0,2-3')], b''), ('POST', UE, [ue[0], ('Content-Length', '10')], b'a=1')]
+    conns = [[], [('Connection', 'keep-alive')], [('Connection', 'Keep-Alive'), ('Keep-Alive', 'timeout=5, max=100')], [('Connection', 'close')], [('Proxy-Connection', 'keep-alive')], [('connection', 'KEEP-ALIVE')],
+             [('Connection', 'keep-alive, Upgrade')], [('Connection', 'keep-alive'), ('Connection', 'close')]]
+    nxt = G.req('GET', p0, 'HTTP/1.1', [('Connection', 'keep-alive')])
+    followers = [b'', nxt, G.req('GET', '/'), G.req('GET', '/missing', 'HTTP/1.1', [('Origin', 'http://a')]), G.req('HEAD', p0), b'OPTIONS * HTTP/1.1\r\n\r\n', b'GET x HTTP/1.1\r\n\r\n', b'\xff\xfe\x00garbage\r\n\r\n', b'GET /',
+                 b'GET / HTTP/1.1\r\nHost: a', b'\r\n', b'\r\n' + nxt, nxt + nxt, nxt + b'\xff\xfe\r\n\r\n', G.req('GET', p0, 'HTTP/1.1', [('Connection', 'close')]), G.req('GET', p0, 'HTTP/1.0'), b'\x00' * 16, b'\x16\x03\x01\x02\x00',
+                 G.req('POST', UE, 'HTTP/1.1', ue, b'a=1'), G.req('GET', '/' + 'a' * 12000), b'BREW / HTTP/1.1\r\n\r\n', b'GET / HTTP/9.9\r\n\r\n', b'a', b' ', b'\n', G.req('GET', p0, 'HTTP/1.1', [('Range', 'bytes=9-1')]),
+                 b'PRI * HTTP/2.0\r\n\r\nSM\r\n\r\n', b'0123456789', b'=2&c=3']
+    for fi, (m, t, hs0, body) in enumerate(firsts):
+        for co in conns:
+            for fo in followers:
+                for ver in ('HTTP/1.1', 'HTTP/1.0'):
+                    if ver == 'HTTP/1.0' and not rng.chance(1, 5): continue
+                    if q and fi != 0 and not rng.chance(1, 8): continue
+                    first = G.req(m, t, ver, hs0 + co, body)
+                    if pad_to:
+                        # the legacy entry point takes its buffer size from the configuration: the first request is padded to exactly that size
+                        k = pad_to - len(G.req(m, t, ver, hs0 + co + [('X-Pad', '')], body))
+                        if k < 0: continue
+                        first = G.req(m, t, ver, hs0 + co + [('X-Pad', 'p' * k)], body)
+                        cs.append(K.mk(tree, m, t, hs0 + co, body, version=ver, raw=first + fo, entry='preq', kind='connection-relation'))
+                        if rng.chance(1, 4): cs.append(K.mk(tree, m, t, hs0 + co, body, version=ver, raw=first + fo, alloc=pad_to, entry='proc', kind='connection-relation'))
+                        continue
+                    raw = first + fo
+                    allocs = [len(first), 10000] + ([len(first) + 5] if rng.chance(1, 4) else []) + ([len(first) - 1] if rng.chance(1, 10) else [])
+                    for al in allocs:
+                        if q and fi != 0 and not rng.chance(1, 2): continue
+                        cs.append(K.mk(tree, m, t, hs0 + co, body, version=ver, raw=raw, alloc=al, entry='proc', kind='connection-relation'))
+                    if rng.chance(1, 3 if q else 1):
+                        cs.append(K.mk(tree, m, t, hs0 + co, body, version=ver, raw=raw, entry='preq', kind='connection-relation'))
+    return cs
+
+# ------------------------------------------------------------------------------------------------ request bodies
+def _b64(b): return base64.b64encode(b).decode()
+def body_relations(rng, tier, tree):
+    """headers that only mean something TOGETHER WITH THE BODY: integrity (Content-MD5, Digest, Content-Digest, Repr-Digest: right, wrong,
+    garbage), content codings (the body really is / is not what Content-Encoding says), transfer codings (well-formed and broken chunked
+    bodies, trailers naming the fixed headers), character sets - a server that starts to check one of them answers the mismatch itself"""
+    cs = []
+    q = tier == 'quick'
+    p0 = _p(tree.names[0])
+    mp = b'--B\r\nContent-Disposition: form-data; name="a"\r\n\r\nv\r\n--B--\r\n'
+    gz = lambda b: _gzip.compress(b, 6, mtime=0)
+    def raw_deflate(b):
+        c = _zlib.compressobj(6, _zlib.DEFLATED, -15); return c.compress(b) + c.flush()
+    def chunked(b, ext=b'', sizes=None):
+        out, i = b'', 0
+        for n in (sizes or [len(b)]):
+            if n == 0: continue
+            out += b'%x' % n + ext + b'\r\n' + b[i:i + n] + b'\r\n'; i += n
+        return out + b'0\r\n\r\n'
+    def variants(b):
+        sha, md5 = hashlib.sha256(b).digest(), hashlib.md5(b).digest()
+        wrong = hashlib.sha256(b + b'x').digest()
+        V = []
+        for hs in ([('Content-MD5', _b64(md5))], [('Content-MD5', _b64(hashlib.md5(b + b'x').digest()))], [('Content-MD5', 'garbage')], [('Content-MD5', '')], [('content-md5', _b64(md5)[:-2])],
+                   [('Digest', 'SHA-256=' + _b64(sha))], [('Digest', 'SHA-256=' + _b64(wrong))], [('Digest', 'MD5=' + _b64(md5) + ', SHA-256=' + _b64(wrong))], [('Digest', 'crc32c=0')],
+                   [('Content-Digest', 'sha-256=:' + _b64(sha) + ':')], [('Content-Digest', 'sha-256=:' + _b64(wrong) + ':')], [('Content-Digest', 'sha-512=:AAAA:')], [('Repr-Digest', 'sha-256=:' + _b64(wrong) + ':')],
+                   [('Want-Digest', 'sha-256')], [('Want-Repr-Digest', 'sha-256=1')], [('Want-Content-Digest', 'sha-512=3, sha-256=10, unixsum=0')], [('X-Content-SHA256', sha.hex())], [('x-amz-content-sha256', wrong.hex())],
+                   [('Content-Range', 'bytes 0-%d/%d' % (max(len(b) - 1, 0), len(b)))], [('Content-Range', 'bytes 5-1/2')], [('Content-Language', 'de')], [('Content-Location', '/other')], [('Content-Disposition', 'attachment; filename="x.txt"')],
+                   [('If-Match', '*')], [('If-None-Match', '*')], [('If-Unmodified-Since', 'Thu, 01 Jan 1970 00:00:00 GMT')], [('Idempotency-Key', '8e03978e-40d5-43e8-bc93-6894a57f9324')], [('X-CSRF-Token', 'x')],
+                   [('Prefer', 'return=minimal')], [('Prefer', 'return=representation')], [('Prefer', 'respond-async, wait=0')], [('Prefer', 'handling=strict')], [('Early-Data', '1')], [('Expect', '100-continue'), ('Prefer', 'return=minimal')]):
+            V.append((hs, b, True))
+        for ce, bb in (('gzip', gz(b)), ('gzip', b), ('deflate', _zlib.compress(b)), ('deflate', raw_deflate(b)), ('br', b), ('identity', b), ('gzip, gzip', gz(gz(b))), ('GZIP', gz(b)), ('x-gzip', gz(b)), ('zstd', b),
+                       ('gzip', gz(b)[:10]), ('gzip', gz(b'\x00' * 100000)), ('compress', b), ('gzip', b''), ('', b), ('aws-chunked', b), ('deflate, gzip', gz(_zlib.compress(b)))):
+            V.append(([('Content-Encoding', ce)], bb, True))
+        ok = chunked(b)
+        for hs, bb, cl in (([('Transfer-Encoding', 'chunked')], ok, False), ([('Transfer-Encoding', 'chunked')], ok, True), ([('Transfer-Encoding', 'chunked')], chunked(b, sizes=[1, len(b) - 1] if len(b) > 1 else None), False),
+                           ([('Transfer-Encoding', 'chunked')], chunked(b, ext=b';x=y'), False), ([('Transfer-Encoding', 'chunked')], b'zz\r\n' + b + b'\r\n0\r\n\r\n', False),
+                           ([('Transfer-Encoding', 'chunked')], b'FFFFFFFFFFFFFFFFF\r\n' + b + b'\r\n0\r\n\r\n', False), ([('Transfer-Encoding', 'chunked')], b'%x\r\n' % len(b) + b + b'\r\n', False),
+                           ([('Transfer-Encoding', 'chunked')], b, False), ([('Transfer-Encoding', 'chunked')], b'', False), ([('Transfer-Encoding', 'chunked')], b'0\r\n\r\n', False),
+                           ([('Transfer-Encoding', 'chunked'), ('Trailer', 'Cache-Control, X-Frame-Options')], ok[:-2] + b'Cache-Control: public\r\nX-Frame-Options: DENY\r\n\r\n', False),
+                           ([('Transfer-Encoding', 'gzip, chunked')], chunked(gz(b)), False), ([('Transfer-Encoding', 'chunked, chunked')], ok, False), ([('Transfer-Encoding', 'identity')], b, True),
+                           ([('Transfer-Encoding', 'Chunked')], ok, False), ([('Transfer-Encoding', 'chunked'), ('Transfer-Encoding', 'identity')], ok, False), ([('TE', 'chunked')], ok, False),
+                           ([('Transfer-Encoding', 'chunked'), ('Expect', '100-continue')], b'', False), ([('Transfer-Encoding', 'x')], b, True)):
+            V.append((hs, bb, cl))
+        return V
+    ends = [('POST', UE, 'application/x-www-form-urlencoded', b'a=1&b=2'), ('POST', MP, 'multipart/form-data; boundary=B', mp), ('POST', '/file-upload/initiate?name=a&lastModified=1&size=2', 'application/octet-stream', b'xy'),
+            ('PUT', p0, 'text/plain', b'new content'), ('POST', '/missing', 'application/json', b'{"a":1}'), ('PATCH', p0, 'application/merge-patch+json', b'{"a":1}'), ('DELETE', p0, None, b'x'), ('GET', p0, None, b'body on GET'),
+            ('POST', '/', 'text/plain', b'to the index'), ('POST', UE, 'application/x-www-form-urlencoded', b'')]
+    for ei, (m, t, ct, b) in enumerate(ends):
+        for hs, bb, cl in variants(b):
+            if q and ei != 0 and not rng.chance(1, 5): continue
+            full = ([('Content-Type', ct)] if ct else []) + hs + ([('Content-Length', str(len(bb)))] if cl else [])
+            if rng.chance(1, 5): full = [('Origin', 'http://a')] + full
+            for e in ((ENTRIES if not q else ('proc', 'preq')) if ei == 0 else (_e4(rng),)):
+                cs.append(K.mk(tree, m, t, full, bb, entry=e, kind='body-relation'))
+    for ct, bb in (('application/x-www-form-urlencoded; charset=iso-8859-1', b'a=\xe9'), ('application/x-www-form-urlencoded; charset=utf-16', 'a=1'.encode('utf-16')), ('application/x-www-form-urlencoded; charset=utf-8', b'a=\xff'),
+                   ('application/x-www-form-urlencoded; charset=x', b'a=1'), ('application/x-www-form-urlencoded;charset="UTF-8"', 'a=é'.encode()), ('text/plain; charset=utf-7', b'+ADw-'),
+                   ('multipart/form-data; boundary=B; charset=iso-8859-1', mp), ('application/json', b'{"a":'), ('application/json; charset=utf-8', b'{"a":"\xff"}'), ('application/xml', b'<a>'), ('text/xml; charset=utf-16', b'<a/>')):
+        for t in (UE, MP, '/missing', p0):
+            if q and not rng.chance(1, 2): continue
+            cs.append(K.mk(tree, 'POST', t, [('Content-Type', ct), ('Content-Length', str(len(bb)))], bb, entry=_e4(rng), kind='body-relation'))
+    return cs
+
+# ------------------------------------------------------------------------------------------------ header pairs
+SEMANTIC2 = {
+    'Prefer': ['return=minimal', 'return=representation', 'respond-async', 'wait=10', 'handling=lenient', 'safe'], 'Content-MD5': ['1B2M2Y8AsgTpgAmY7PhCfg==', 'x'], 'Digest': ['SHA-256=47DEQpj8HBSa+/TImW+5JCeuQeRkm5NMpJWZG3hSuFU='],
+    'Content-Digest': ['sha-256=:47DEQpj8HBSa+/TImW+5JCeuQeRkm5NMpJWZG3hSuFU=:'], 'Repr-Digest': ['sha-256=:47DEQpj8HBSa+/TImW+5JCeuQeRkm5NMpJWZG3hSuFU=:'], 'Want-Repr-Digest': ['sha-256=1'], 'Want-Content-Digest': ['sha-256=1'],
+    'X-HTTP-Method-Override': ['DELETE', 'HEAD', 'OPTIONS', 'GET'], 'X-Method-Override': ['PUT'], 'X-HTTP-Method': ['PATCH'], 'X-Forwarded-Port': ['443', '80', '7878'], 'X-Forwarded-Ssl': ['on', 'off'], 'X-Forwarded-Scheme': ['https'],
+    'X-Forwarded-Prefix': ['/app'], 'X-Forwarded-Server': ['proxy.example'], 'X-Original-URL': ['/admin'], 'X-Rewrite-URL': ['/admin'], 'X-Original-Host': ['other.example'], 'X-Real-IP': ['203.0.113.7', '127.0.0.1', '::1', 'x'],
+    'X-Client-IP': ['203.0.113.7'], 'True-Client-IP': ['203.0.113.7'], 'CF-Connecting-IP': ['203.0.113.7'], 'CF-Visitor': ['{"scheme":"http"}'], 'Front-End-Https': ['on'], 'X-Request-ID': ['7f3c2a', 'a' * 200], 'X-Correlation-ID': ['1'],
+    'Traceparent': ['00-0af7651916cd43dd8448eb211c80319c-b7ad6b7169203331-01'], 'Tracestate': ['a=b'], 'Baggage': ['k=v'], 'Keep-Alive': ['timeout=5, max=100', 'timeout=0'], 'Proxy-Connection': ['keep-alive', 'close'],
+    'Last-Event-ID': ['42'], 'Link': ['</style.css>; rel=preload; as=style'], 'Sec-WebSocket-Key': ['dGhlIHNhbXBsZSBub25jZQ=='], 'Sec-WebSocket-Version': ['13', '8'], 'Sec-WebSocket-Protocol': ['chat'], 'Sec-WebSocket-Extensions': ['permessage-deflate'],
+    'HTTP2-Settings': ['AAMAAABkAARAAAAAAAIAAAAA'], 'Origin-Agent-Cluster': ['?1'], 'Sec-Fetch-Storage-Access': ['active', 'inactive', 'none'], 'Idempotency-Key': ['k'], 'X-CSRF-Token': ['t'], 'X-XSRF-TOKEN': ['t'], 'X-Do-Not-Track': ['1'],
+    'Accept-Datetime': ['Thu, 31 May 2007 20:35:00 GMT'], 'A-IM': ['feed', 'gzip'], 'Alt-Used': ['localhost:443'], 'CDN-Loop': ['cdn.example', 'a, a, a, a, a, a, a, a'], 'Cache-Status': ['x; hit'], 'Surrogate-Capability': ['abc="Surrogate/1.0 ESI/1.0"'],
+    'Surrogate-Control': ['no-store'], 'X-Purpose': ['preview'], 'Sec-Speculation-Tags': ['null'], 'Sec-Browsing-Topics': ['();p=P0'], 'Available-Dictionary': [':pZGm1Av0IEBKARczz7exkNYsZb8LzaMrV7J32a2fFG4=:'], 'Dictionary-ID': ['"a"'],
+    'Accept-Signature': ['sig1=("@status")'], 'Signature': ['sig1=:AAAA:'], 'Signature-Input': ['sig1=("@method");created=1'], 'Request-Range': ['bytes=0-0'], 'Unless-Modified-Since': ['Wed, 21 Oct 2015 07:28:00 GMT'],
+    'Content-Disposition': ['attachment; filename="a.txt"'], 'Content-Language': ['de'], 'Content-Location': ['/x'], 'Content-Security-Policy-Report-Only': ["default-src 'none'"], 'Permissions-Policy': ['interest-cohort=()'],
+    'X-Robots-Tag': ['noindex'], 'X-UA-Compatible': ['IE=edge'], 'X-Powered-By': ['x'], 'Server': ['x'], 'Retry-After': ['1'], 'Age': ['0', '100000'], 'Expires': ['0', 'Wed, 21 Oct 2015 07:28:00 GMT'], 'ETag': ['"abc"'],
+    'Last-Modified': ['Wed, 21 Oct 2015 07:28:00 GMT'], 'Location': ['/'], 'Allow': ['GET'], 'WWW-Authenticate': ['Basic realm="x"'], 'Set-Cookie': ['a=b'], 'Status': ['200 OK'], 'Refresh': ['0; url=/'], 'X-Accel-Redirect': ['/secret.txt'],
+    'X-Sendfile': ['/etc/passwd'], 'X-Accel-Buffering': ['no'], 'X-Cache': ['HIT'], 'X-No-Compression': ['1'], 'X-Requested-With': ['XMLHttpRequest', 'com.example.app'], 'X-Prototype-Version': ['1.7'], 'Accept-Post': ['text/plain'], 'Accept-Patch': ['text/plain'],
+    'Access-Control-Request-Private-Network': ['true'], 'Access-Control-Request-Local-Network': ['true'], 'Sec-Fetch-Dest': ['webidentity', 'json'], 'Sec-GPC': ['x'], 'Sec-CH-UA-Form-Factors': ['"Mobile"', '"XR"'], 'Sec-CH-Save-Data': ['on'],
+    'Sec-CH-ECT': ['slow-2g'], 'Sec-CH-RTT': ['3000'], 'Sec-CH-Downlink': ['0.05'], 'Sec-CH-Device-Memory': ['0.25'], 'Sec-CH-Viewport-Height': ['800'], 'Sec-CH-Prefers-Contrast': ['more'], 'Sec-CH-Forced-Colors': ['active'],
+    'Cookie': ['lang=de', 'session=abc; csrftoken=x', 'cookieconsent_status=dismiss', 'theme=dark', 'SID=x; HSID=y', '__Host-id=1', 'a=b; ' * 50, 'nocache=1', 'wordpress_logged_in_x=1', 'Vary=Origin'],
+    'Authorization': ['Basic ' + 'QQ==' * 500, 'Negotiate YII=', 'NTLM TlRMTVNTUAAB', 'AWS4-HMAC-SHA256 Credential=a', 'basic dXNlcjpwYXNz', 'Basic', 'Basic dXNlcg=='],
+    'If-None-Match': ['"abc", *', 'W/"0"', '"' + 'e' * 300 + '"', 'abc'], 'If-Modified-Since': ['Fri, 01 Jan 2100 00:00:00 GMT', 'Sunday, 06-Nov-94 08:49:37 GMT', 'Sun Nov  6 08:49:37 1994', '1700000000', '1700000000000000000',
+                                                                                                  '2015-10-21T07:28:00Z', 'Wed, 21 Oct 2015 07:28:00 +0000', 'Wed, 21 Oct 2015 07:28:00', 'wed, 21 oct 2015 07:28:00 gmt', 'Thu, 31 Dec 2037 23:59:59 GMT', ''],
+    'If-Range': ['Fri, 01 Jan 2100 00:00:00 GMT', '"'], 'Accept-Encoding': ['gzip;q=1.0, identity; q=0.5, *;q=0', 'gzip, ' * 40 + 'br', 'deflate, gzip;q=1.0, *;q=0.5'], 'Accept': ['application/json, text/plain, */*', 'application/problem+json', 'text/html;level=1', '*/*;q=0.8, text/html', 'a/b, ' * 60 + '*/*'],
+    'Range': ['bytes=0-0', 'items=0-1', 'bytes=0-0;q=1'], 'Connection': ['Keep-Alive, Upgrade', 'close, keep-alive', 'Origin', 'Range', 'x' * 300], 'Upgrade': ['h2', 'HTTP/3', 'websocket, h2c', 'WebSocket', 'IRC/6.9'],
+    'Max-Forwards': ['x', '-1', '99999999999'], 'Host': ['127.0.0.1', '127.0.0.1:7878', '127.0.0.1:80', 'LOCALHOST:7878', 'localhost.', 'localhost:7878, other.example', 'a' * 300, '0', '[::1]', '127.0.0.1:7878:1'],
+    'Via': ['1.1 ' + 'p, 1.1 ' * 30 + 'q', '2 a'], 'Forwarded': ['for=203.0.113.7;proto=http;host=other.example', 'for="[2001:db8::1]:80"', 'proto=https', 'for=unknown', 'by=_hidden;for=_secret', 'x'],
+    'X-Forwarded-For': ['127.0.0.1', '::1', 'unknown', '203.0.113.7, ' * 30 + '10.0.0.1', 'x'], 'X-Forwarded-Proto': ['HTTPS', 'wss', 'http, https', ''], 'X-Forwarded-Host': ['127.0.0.1:7878', 'a, b', 'localhost'],
+    'User-Agent': ['Mozilla/5.0 (compatible; bingbot/2.0; +http://www.bing.com/bingbot.htm)', 'facebookexternalhit/1.1', 'Mozilla/5.0 (iPhone; CPU iPhone OS 17_5 like Mac OS X) AppleWebKit/605.1.15 (KHTML, like Gecko) Version/17.5 Mobile/15E148 Safari/604.1',
+                   'Mozilla/4.0 (compatible; MSIE 6.0; Windows NT 5.1)', 'Mozilla/5.0 (compatible; MSIE 9.0; Windows NT 6.1; Trident/5.0)', 'Opera/9.80 (J2ME/MIDP; Opera Mini/9.80) Presto/2.12', 'sqlmap/1.7', 'Go-http-client/1.1', 'kube-probe/1.29',
+                   'ELB-HealthChecker/2.0', 'a' * 1000, 'Mozilla/5.0 (X11; CrOS x86_64 14541.0.0) Chrome/126.0 Safari/537.36', 'Mozilla/5.0 (Linux; Android 14; wv) Version/4.0 Chrome/126.0 Mobile Safari/537.36'],
+}
+
+def header_relations(rng, tier, tree):
+    """pairs and triples of request headers that only mean something TOGETHER (or together with the method, the route, the version, the
+    configuration): fetch metadata, proxy headers x Upgrade-Insecure-Requests x Host, method override x method, Host x version x the
+    configured address, Origin x Host (a same-origin short cut), Accept / Accept-Language x every ERROR answer (a negotiated error page is a
+    new response), Early-Data / Sec-Purpose x unsafe methods, poor-network hints together, Upgrade x Connection, Max-Forwards x method"""
+    cs = []
+    q = tier == 'quick'
+    p0 = _p(tree.names[0])
+    def add(m, t, hs, body=b'', ver='HTTP/1.1', kind='header-relation', **kw): cs.append(K.mk(tree, m, t, hs, body, version=ver, entry=kw.pop('entry', None) or _e4(rng), kind=kind, **kw))
+    # one header at a time: the names and values the first pass did not have
+    for n, vals in SEMANTIC2.items():
+        for v in vals:
+            for m, t in (('GET', p0), ('GET', '/'), ('OPTIONS', p0), ('GET', '/missing'), ('HEAD', p0), ('POST', UE), ('GET', 'x'), ('GET', '/size/k9999.txt'), ('PUT', p0)):
+                if (m, t) != ('GET', p0) and not rng.chance(1, 8 if q else 2): continue
+                spelled = n if rng.chance(3, 4) else rng.choice([n.lower(), n.upper()])
+                hs = [(spelled, v)]
+                body = b''
+                if m in ('POST', 'PUT'): hs += [('Content-Type', 'application/x-www-form-urlencoded'), ('Content-Length', '3')]; body = b'a=1'
+                add(m, t, hs, body, kind='semantic-value-2')
+    # fetch metadata: destination x site x mode
+    for d in SEMANTIC['Sec-Fetch-Dest'][:19]:
+        for s in SEMANTIC['Sec-Fetch-Site']:
+            for mo in SEMANTIC['Sec-Fetch-Mode']:
+                if not rng.chance(1, 6 if q else 1): continue
+                hs = [('Sec-Fetch-Dest', d), ('Sec-Fetch-Site', s), ('Sec-Fetch-Mode', mo)] + ([('Sec-Fetch-User', '?1')] if rng.chance(1, 3) else []) + ([('Origin', 'http://other.example')] if s == 'cross-site' and rng.chance(1, 2) else [])
+                add(rng.choice(['GET', 'GET', 'POST', 'HEAD', 'OPTIONS']), rng.choice([p0, '/', '/missing', '/type/f.html', '/type/f.js', '/type/f.png', UE, '/withindex/']), hs)
+    # behind a proxy: scheme x Upgrade-Insecure-Requests x Host
+    for proto in ([('X-Forwarded-Proto', 'http')], [('X-Forwarded-Proto', 'https')], [('Forwarded', 'for=203.0.113.7;proto=http;host=site.example')], [('X-Forwarded-Ssl', 'off')], [('Front-End-Https', 'off')], [('CF-Visitor', '{"scheme":"http"}')], [('X-Forwarded-Port', '80')], []):
+        for uir in ([('Upgrade-Insecure-Requests', '1')], []):
+            for host in ([('Host', 'site.example')], [('Host', '127.0.0.1:7878')], [('Host', 'site.example'), ('X-Forwarded-Host', 'public.example')], []):
+                if q and not rng.chance(1, 2): continue
+                add(rng.choice(['GET', 'GET', 'HEAD', 'POST']), rng.choice([p0, '/', '/missing', '/withindex']), proto + uir + host + ([('X-Forwarded-For', '203.0.113.7')] if rng.chance(1, 2) else []))
+    # client address as the proxy reports it x the address of the connection (127.0.0.1)
+    for hs in ([('X-Forwarded-For', '127.0.0.1')], [('X-Forwarded-For', '203.0.113.7'), ('X-Real-IP', '203.0.113.7')], [('X-Forwarded-For', '203.0.113.7'), ('X-Real-IP', '10.0.0.1')], [('Forwarded', 'for=127.0.0.1')],
+               [('X-Forwarded-For', '10.0.0.1'), ('Via', '1.1 p')], [('X-Forwarded-For', '1.1.1.1'), ('X-Forwarded-For', '2.2.2.2')], [('Client-IP', '1.1.1.1'), ('X-Forwarded-For', '2.2.2.2')]):
+        for t in (p0, '/', '/missing', 'x'): add('GET', t, hs)
+    # method override x method x route
+    for name in ('X-HTTP-Method-Override', 'X-Method-Override', 'X-HTTP-Method', 'x-http-method-override'):
+        for ov in ('GET', 'HEAD', 'OPTIONS', 'DELETE', 'PUT', 'PATCH', 'TRACE', 'CONNECT', 'get', 'BREW', ''):
+            for m in ('POST', 'GET', 'PUT'):
+                if (name != 'X-HTTP-Method-Override' or m != 'POST') and not rng.chance(1, 6 if q else 2): continue
+                for t in (p0, UE, '/', '/missing'):
+                    if t != p0 and not rng.chance(1, 3): continue
+                    add(m, t, [(name, ov)] + ([('Content-Length', '0')] if rng.chance(1, 2) else []))
+    for t in (UE + '?_method=DELETE', p0 + '?_method=HEAD', p0 + '?_method=OPTIONS', '/?_method=PUT'):
+        add('POST', t, [('Content-Type', 'application/x-www-form-urlencoded'), ('Content-Length', '14')], b'_method=DELETE'); add('GET', t, [])
+    # Host x version x target form x the configured address
+    for hosts in ([], [('Host', '127.0.0.1:7878')], [('Host', 'localhost:7878')], [('Host', 'other.example')], [('Host', '127.0.0.1:7878'), ('Host', '127.0.0.1:7878')], [('Host', 'a'), ('Host', 'b')], [('Host', '')], [('host', '127.0.0.1:7878')],
+                  [('Host', '127.0.0.1:9999')], [('Host', 'a b')], [('Host', 'a/b')], [('Host', 'user@a')], [('Host', '127.0.0.1:7878'), ('X-Forwarded-Host', 'other.example')]):
+        for ver in ('HTTP/1.1', 'HTTP/1.0', 'HTTP/2.0', 'HTTP/0.9'):
+            for t in (p0, '/', 'http://127.0.0.1:7878' + p0, 'http://other.example/', '/missing'):
+                if q and (ver, t) != ('HTTP/1.1', p0) and not rng.chance(1, 4): continue
+                add(rng.choice(['GET', 'GET', 'HEAD', 'OPTIONS', 'POST']), t, hosts, ver=ver, entry=_e2(rng))
+    # Origin x Host: the same origin, nearly the same, another
+    for o, h in (('http://127.0.0.1:7878', '127.0.0.1:7878'), ('http://localhost:7878', 'localhost:7878'), ('http://site.example', 'site.example'), ('https://site.example', 'site.example'), ('http://site.example:80', 'site.example'),
+                 ('http://SITE.example', 'site.example'), ('http://site.example', 'other.example'), ('http://site.example', None), ('null', 'site.example'), ('http://127.0.0.1:7878', 'localhost:7878'), ('http://site.example', 'site.example:7878')):
+        for m in ('GET', 'HEAD', 'OPTIONS', 'POST'):
+            for extra in ([], [('Sec-Fetch-Site', 'same-origin')], [('Access-Control-Request-Method', 'PUT')], [('Referer', o + '/')]):
+                if q and extra and not rng.chance(1, 3): continue
+                add(m, rng.choice([p0, p0, '/', '/missing', UE]), ([('Host', h)] if h else []) + [('Origin', o)] + extra, kind='origin-host')
+    # what the client accepts x every ERROR answer and every built-in answer
+    errs = [('GET', '/missing', [], b''), ('GET', 'x', [], b''), ('GET', '/size/k100.html', [('Range', 'bytes=500-')], b''), ('POST', MP, [('Content-Type', 'multipart/form-data; boundary=B'), ('Content-Length', '7')], b'garbage'),
+            ('POST', '/file-upload/initiate', [], b''), ('POST', UE, [('Content-Type', 'application/x-www-form-urlencoded'), ('Content-Length', '2')], b'\xff\xfe'), ('PUT', p0, [], b''), ('GET', '/noindex/', [], b''), ('GET', '/climb.lnk', [], b''),
+            ('DELETE', '/missing', [], b''), ('GET', '/', [], b''), ('GET', '/form-get-method?a=b', [], b''), ('TRACE', p0, [], b''), ('GET', '/..', [], b''), ('GET', '/a/../secret.txt', [], b'')]
+    acc = [[('Accept', 'application/json')], [('Accept', 'application/problem+json, application/json;q=0.9')], [('Accept', 'text/plain')], [('Accept', 'text/html')], [('Accept', 'application/xml')], [('Accept', 'image/png')], [('Accept', '*/*;q=0')],
+           [('Accept-Language', 'de')], [('Accept-Charset', 'iso-8859-1')], [('Accept-Encoding', 'gzip')], [('X-Requested-With', 'XMLHttpRequest')], [('Accept', 'application/json'), ('X-Requested-With', 'XMLHttpRequest'), ('Origin', 'http://a')],
+           [('Sec-Fetch-Dest', 'document'), ('Sec-Fetch-Mode', 'navigate'), ('Accept', 'text/html,*/*;q=0.8')], [('Sec-Fetch-Dest', 'empty'), ('Sec-Fetch-Mode', 'cors'), ('Accept', '*/*')], [('User-Agent', UA['curl']), ('Accept', '*/*')],
+           [('Prefer', 'return=minimal')], [('Content-Type', 'application/json')]]
+    for m, t, hs0, body in errs:
+        for a in acc:
+            if q and not rng.chance(1, 2): continue
+            add(m, t, hs0 + a, body, kind='accept-on-error')
+    for a in acc:   # ... and the server-made 400s: failing handler, unparsable bytes
+        cs.append(K.mk(tree, 'GET', p0, a, app='err:' + C.hx('boom'), kind='accept-on-error'))
+        cs.append(K.mk(tree, '?', '?', raw=b'BREW / HTTP/1.1\r\n' + b''.join((n + ': ' + v + '\r\n').encode() for n, v in a) + b'\r\n', entry=_e2(rng), kind='accept-on-error'))
+    # early data / speculative loads x unsafe methods and form endpoints
+    for hs in ([('Early-Data', '1')], [('Sec-Purpose', 'prefetch')], [('Sec-Purpose', 'prefetch;prerender')], [('Purpose', 'prefetch')], [('X-Moz', 'prefetch')], [('Sec-Purpose', 'prefetch'), ('Sec-Fetch-Dest', 'document')],
+               [('Early-Data', '1'), ('Origin', 'http://a')], [('Sec-Speculation-Tags', '"x"'), ('Sec-Purpose', 'prefetch')]):
+        for m, t in (('POST', UE), ('POST', MP), ('POST', '/file-upload/initiate?name=a&lastModified=1&size=2'), ('PUT', p0), ('DELETE', p0), ('PATCH', p0), ('GET', '/form-get-method?a=b'), ('GET', p0), ('GET', '/'), ('HEAD', p0)):
+            body = b'a=1' if m == 'POST' else b''
+            add(m, t, hs + ([('Content-Type', 'application/x-www-form-urlencoded'), ('Content-Length', '3')] if body else []), body)
+    # a poor network, said in several hints at once
+    poor = [('Save-Data', 'on'), ('ECT', 'slow-2g'), ('Downlink', '0.05'), ('RTT', '3000'), ('Device-Memory', '0.25'), ('Sec-CH-UA-Mobile', '?1')]
+    for k in range(1, len(poor) + 1):
+        for t in (p0, '/', '/type/f.png', '/type/f.mp4', '/size/k70001.bin', '/missing'):
+            if q and not rng.chance(1, 2): continue
+            add(rng.choice(['GET', 'HEAD']), t, poor[:k]); add('GET', t, poor[len(poor) - k:])
+    # Upgrade x Connection x version; Max-Forwards x method; caching directives together
+    for hs in ([('Upgrade', 'h2c')], [('Connection', 'Upgrade')], [('Connection', 'Upgrade'), ('Upgrade', 'websocket')], [('Connection', 'upgrade'), ('Upgrade', 'WebSocket'), ('Sec-WebSocket-Version', '13')],
+               [('Connection', 'Upgrade'), ('Upgrade', 'websocket'), ('Sec-WebSocket-Key', 'dGhlIHNhbXBsZSBub25jZQ=='), ('Sec-WebSocket-Version', '8')], [('Connection', 'Upgrade, HTTP2-Settings'), ('Upgrade', 'h2c')],
+               [('HTTP2-Settings', 'AAMAAABkAARAAAAAAAIAAAAA')], [('Connection', 'Upgrade'), ('Upgrade', 'TLS/1.2, HTTP/1.1')], [('Connection', 'keep-alive, Upgrade'), ('Upgrade', 'websocket'), ('Origin', 'http://other.example'), ('Sec-WebSocket-Key', 'x')]):
+        for ver in ('HTTP/1.1', 'HTTP/1.0', 'HTTP/2.0'):
+            for m, t in (('GET', p0), ('GET', '/'), ('GET', '/missing'), ('POST', UE), ('OPTIONS', p0), ('CONNECT', p0)):
+                if q and (ver, m, t) != ('HTTP/1.1', 'GET', p0) and not rng.chance(1, 4): continue
+                add(m, t, hs, ver=ver)
+    for mf in ('0', '1', '2', 'x', '', '-1', '00', '4294967296'):
+        for m in ('TRACE', 'OPTIONS', 'GET', 'CONNECT'):
+            for t in (p0, '/', '*', '/missing'):
+                if q and t != p0 and not rng.chance(1, 3): continue
+                add(m, t, [('Max-Forwards', mf)] + ([('Via', '1.1 p')] if rng.chance(1, 3) else []), entry=_e2(rng))
+    for hs in ([('Cache-Control', 'only-if-cached'), ('If-None-Match', '*')], [('Cache-Control', 'no-cache'), ('Pragma', 'no-cache'), ('If-Modified-Since', 'Fri, 01 Jan 2100 00:00:00 GMT')], [('Cache-Control', 'max-age=0'), ('If-None-Match', '*')],
+               [('Cache-Control', 'max-stale=100'), ('If-Modified-Since', 'Fri, 01 Jan 2100 00:00:00 GMT')], [('If-None-Match', '*'), ('If-Modified-Since', 'Thu, 01 Jan 1970 00:00:00 GMT')], [('If-Match', '"x"'), ('If-None-Match', '*')],
+               [('If-Match', '"x"')], [('If-Unmodified-Since', 'Thu, 01 Jan 1970 00:00:00 GMT')], [('If-Unmodified-Since', 'Thu, 01 Jan 1970 00:00:00 GMT'), ('Range', 'bytes=0-0')], [('If-Range', 'Fri, 01 Jan 2100 00:00:00 GMT'), ('Range', 'bytes=0-0')],
+               [('If-Range', '"x"'), ('Range', 'bytes=0-0,2-2')], [('If-Range', '*')], [('If-None-Match', '*'), ('Range', 'bytes=0-0')], [('If-None-Match', '*'), ('Origin', 'http://a')], [('If-Modified-Since', 'Fri, 01 Jan 2100 00:00:00 GMT'), ('Origin', 'http://a')]):
+        for m, t in (('GET', p0), ('HEAD', p0), ('GET', '/'), ('GET', '/style.css'), ('GET', '/withindex/'), ('GET', '/page'), ('GET', '/missing'), ('OPTIONS', p0), ('POST', UE), ('PUT', p0), ('DELETE', p0), ('GET', '/size/zero.txt'), ('GET', '/link.txt')):
+            if q and (m, t) not in (('GET', p0), ('HEAD', p0), ('PUT', p0)) and not rng.chance(1, 3): continue
+            add(m, t, hs, kind='conditional-pair')
+    return cs
+
+# ------------------------------------------------------------------------------------------------ histories
+def histories2(rng, tier, tree):
+    """what was asked BEFORE, for the features that remember: a response cache (same path again; with another Origin, method, range, hint set,
+    Accept-Encoding), a negative cache (404 again; after the 404 the same path with a slash), a limiter or ban list (many requests, many
+    bad requests, many failing handlers - then a good one), a session (a cookie after none).  Own batch: the process starts empty."""
+    cs = []
+    q = tier == 'quick'
+    p0 = _p(tree.names[0])
+    O = lambda o: [('Origin', o)]
+    ue = [('Content-Type', 'application/x-www-form-urlencoded'), ('Content-Length', '3')]
+    def seq(e, items):
+        for i, it in enumerate(items):
+            m, t, hs = it[:3]
+            body = it[3] if len(it) > 3 else b''
+            kw = it[4] if len(it) > 4 else {}
+            if e.startswith('aexec') and (kw or not t.startswith('/')): continue
+            c = K.mk(tree, m, t, hs, body, entry=e, kind='history-2', **kw)
+            c.note = (len(cs), i)
+            cs.append(c)
+    for e in (('proc', 'preq', 'aexec') if q else ENTRIES):
+        n = 12 if e in ('proc', 'preq') else 4
+        for t in ('/', '/style.css', '/withindex/', '/page', '/missing', '/size/k70001.bin', p0, '/form-get-method?a=b', '/size/zero.txt', '/link.txt', '/favicon.svg'):
+            seq(e, [('GET', t, [])] * n)
+            seq(e, [('GET', t, O('http://a')), ('GET', t, O('http://b')), ('GET', t, []), ('HEAD', t, O('http://a')), ('GET', t, []), ('OPTIONS', t, O('http://a') + [('Access-Control-Request-Method', 'PUT')]), ('GET', t, O('http://a'))])
+            seq(e, [('HEAD', t, []), ('GET', t, []), ('HEAD', t, []), ('GET', t, [('Range', 'bytes=0-0')]), ('GET', t, []), ('GET', t, [('Range', 'bytes=0-0,1-1')]), ('GET', t, [('Range', 'bytes=999999-')]), ('GET', t, [])])
+            seq(e, [('GET', t, [('Accept-Encoding', 'gzip')]), ('GET', t, []), ('GET', t, [('Accept-Encoding', 'gzip')]), ('GET', t, [('Save-Data', 'on')]), ('GET', t, []), ('GET', t, [('Cookie', 'a=b')]), ('GET', t, []),
+                    ('GET', t, [('If-None-Match', '*')]), ('GET', t, [('Cache-Control', 'no-cache')]), ('GET', t, [])])
+        seq(e, [('GET', '/nothing-here', [])] * n + [('GET', '/nothing-here/', []), ('GET', p0, [])])
+        seq(e, [('GET', 'x', [])] * n + [('GET', p0, []), ('GET', '/', [])])
+        seq(e, [('BREW', '/', [])] * n + [('GET', p0, [])])
+        seq(e, [('GET', '/../secret.txt', []), ('GET', '/.env', []), ('GET', '/.git/config', []), ('GET', '/wp-login.php', []), ('GET', '/admin', []), ('GET', '/cgi-bin/x', []), ('POST', '/xmlrpc.php', []), ('GET', '/etc/passwd', [])] * 2 + [('GET', p0, []), ('GET', '/', [])])
+        seq(e, [('POST', UE, ue, b'a=1')] * n + [('GET', UE, [])])
+        seq(e, [('POST', MP, [('Content-Type', 'multipart/form-data; boundary=B')], b'garbage')] * 6 + [('POST', MP, [('Content-Type', 'multipart/form-data; boundary=B')], b'--B\r\nContent-Disposition: form-data; name="a"\r\n\r\nv\r\n--B--\r\n')])
+        seq(e, [('GET', p0, [('Authorization', 'Basic d3Jvbmc6d3Jvbmc=')])] * 6 + [('GET', p0, [])])
+        seq(e, [('GET', p0, []), ('GET', p0, [('Cookie', 'session=abc')]), ('GET', p0, [('Cookie', 'session=abc')]), ('GET', p0, [('Cookie', 'session=other')]), ('GET', p0, [])])
+        if e == 'proc':
+            seq(e, [('GET', p0, [], b'', dict(app='err:' + C.hx('boom')))] * 6 + [('GET', p0, [])])
+            seq(e, [('GET', p0, [], b'', dict(ws='e:0'))] * 4 + [('GET', p0, [])])
+            seq(e, [('GET', p0, [], b'', dict(alloc=4))] * 4 + [('GET', p0, [])])
+        if e in ('proc', 'preq'):
+            for _ in range(4): cs.append(_read_error(tree, e)); cs[-1].kind = 'history-2'; cs[-1].note = (len(cs), 0)
+            seq(e, [('GET', p0, [])])
+    return cs
+
+# ------------------------------------------------------------------------------------------------ a transport that fails
+def transports2(rng, tier, tree):
+    """what the client does AFTER sending: it has gone (the first, the second write call fails), it takes a few bytes at a time or none, the
+    flush fails - on every KIND of answer (file, large file, several ranges, bodiless, built-in page, 404, the server-made 400s).  A server
+    that reports the failure to the client, or retries, writes once more: every accepted buffer is read"""
+    cs = []
+    q = tier == 'quick'
+    p0 = _p(tree.names[0])
+    sites = [('GET', p0, [], {}), ('HEAD', p0, [], {}), ('OPTIONS', p0, [('Origin', 'http://a')], {}), ('GET', '/size/k70001.bin', [], {}), ('GET', '/size/k9999.txt', [('Range', 'bytes=0-0,2-3')], {}), ('GET', '/', [], {}),
+             ('GET', '/missing', [], {}), ('GET', 'x', [], {}), ('GET', p0, [], dict(app='err:' + C.hx('boom'))), ('GET', '/size/k100.html', [('Range', 'bytes=500-')], {}), ('POST', UE, [('Content-Type', 'application/x-www-form-urlencoded')], {}),
+             ('GET', '/size/zero.txt', [], {}), ('GET', p0, [('Expect', '100-continue'), ('Content-Length', '5')], {})]
+    scripts = ['e:0', 'e:1', 'e:2', 's:0', 's:1.0', 's:0.0.0', 'c:1', 'c:4096', 's:100.0', 's:17.e'] if not q else ['e:0', 'e:1', 's:0', 's:1.0', 'c:4096']
+    scripts = [s for s in scripts if not s.endswith('.e')]
+    for m, t, hs, kw in sites:
+        for ws in scripts:
+            for fl in ('ok', 'e'):
+                if fl == 'e' and not rng.chance(1, 4): continue
+                if q and ws == 'c:1' and 'k70001' in t: continue
+                cs.append(K.mk(tree, m, t, hs, ws=ws, flush=fl, entry='proc', kind='transport-2', **kw))
+                if not kw: cs.append(K.mk(tree, m, t, hs, ws=ws, flush=fl, entry='preq', kind='transport-2'))
+    for e in ('proc', 'preq'):
+        for ws in scripts:
+            c = _read_error(tree, e); c.ws = ws; c.kind = 'transport-2'
+            c.line = S.proc_line(b'', ws=ws, read_err=True) if e == 'proc' else S.preq_line(b'', ws=ws, read_err=True)
+            c.raw = b'<read error ' + e.encode() + b' ' + ws.encode() + b'>'
+            cs.append(c)
+            cs.append(K.mk(tree, '?', '?', raw=b'\xff\xfe\r\n\r\n', ws=ws, entry=e, kind='transport-2'))
+    return cs
+
+# ------------------------------------------------------------------------------------------------ error pages of the site
+def error_pages_tree(rng, variant):
+    """the served directory holds pages named after the OTHER statuses (a server that learns to serve them answers every error on a new path)"""
+    t = S.Tree(b'root')
+    root = b'root/'
+    t.file(root + b'a.txt', b'hello world').file(b'secret.txt', S.marker(b'secret.txt'))
+    pages = [b'400.html', b'401.html', b'403.html', b'405.html', b'416.html', b'500.html', b'501.html', b'50x.html', b'4xx.html', b'5xx.html', b'error.html', b'errors/404.html', b'errors/400.html', b'errors/416.html', b'error/500.html',
+             b'404.htm', b'404.txt', b'404.json', b'404/index.html', b'not_found.html', b'_errors/404.html', b'.errors/404.html', b'error_pages/404.html']
+    for nm in pages:
+        if variant == 0: t.file(root + nm, b'<p>OWN ' + nm + b'</p>')
+        elif variant == 1: t.file(root + nm, b'')
+        else:
+            if nm.endswith(b'0.html') or nm.endswith(b'6.html'): t.dir(root + nm)
+            else: t.link(root + nm, b'nowhere')
+    if variant == 0: t.file(root + b'404.html', b'<p>OWN 404</p>')
+    t.names = [b'a.txt']
+    return t
+
+def error_pages_cases(rng, tier, tree):
+    cs = []
+    for e in ENTRIES:
+        for m in ('GET', 'HEAD', 'OPTIONS', 'POST', 'PUT', 'BREW'):
+            for t, hs in (('/missing', []), ('x', []), ('/a.txt', [('Range', 'bytes=99-')]), ('/a.txt', []), ('/', []), ('/400.html', []), ('/errors/404.html', []), ('/404', []), ('/errors/', []), ('/..', []), (MP, [('Content-Type', 'multipart/form-data; boundary=B')]),
+                          ('/file-upload/initiate', []), ('/missing', [('Accept', 'application/json')]), ('/missing', [('Origin', 'http://a')]), ('/a.txt/x', []), ('/%', [])):
+                if e.startswith('aexec') and (m == 'BREW' or not t.startswith('/')): continue
+                if tier == 'quick' and e.startswith('aexec') and not rng.chance(1, 3): continue
+                cs.append(K.mk(tree, m, t, hs, entry=e, kind='error-pages') if m != 'BREW' else K.mk(tree, '?', t, raw=G.req('BREW', t, 'HTTP/1.1', hs), entry=e, kind='error-pages'))
+    cs.append(K.mk(tree, 'GET', '/a.txt', app='err:' + C.hx('boom'), kind='error-pages'))
+    cs += [_read_error(tree, 'proc'), _read_error(tree, 'preq')]
+    for raw in (b'\xff\xfe', b'', b'GET', b'GET / HTTP/9.9\r\n\r\n'):
+        for e in ('proc', 'preq'): cs.append(K.mk(tree, '?', '?', raw=raw, entry=e, kind='error-pages'))
+    return cs
+
+# ------------------------------------------------------------------------------------------------ this request and the answer to an earlier one
+def _dates(secs):
+    """one instant in every spelling a validator may take"""
+    g = _time.gmtime(secs)
+    imf = _time.strftime('%a, %d %b %Y %H:%M:%S GMT', g)
+    return dict(imf=imf, rfc850=_time.strftime('%A, %d-%b-%y %H:%M:%S GMT', g), asctime=_time.strftime('%a %b ', g) + '%2d' % g.tm_mday + _time.strftime(' %H:%M:%S %Y', g),
+                iso=_time.strftime('%Y-%m-%dT%H:%M:%SZ', g), secs=str(secs), lower=imf.lower(), nozone=imf[:-4])
+
+def echo_first(rng, tier, tree):
+    """the requests whose ANSWERS supply the validators of the follow-ups"""
+    cs = []
+    ts = ['/type/f.txt', '/type/f.html', '/type/f.png', '/size/zero.txt', '/size/one.txt', '/size/k9999.txt', '/size/k70001.bin', '/withindex/', '/withindex', '/page', '/link.txt', '/dirlink/other.txt', '/a/b/c/d/deep.txt', '/', '/style.css',
+          '/favicon.svg', '/missing', '/form-get-method?a=b', '/noext', '/x-y_z']
+    if tier == 'quick': ts = ts[:3] + [t for t in ts[3:] if rng.chance(1, 2)]
+    for t in ts:
+        cs.append(K.mk(tree, 'GET', t, [], entry=_e4(rng), kind='echo-first'))
+    return cs
+
+ECHOED = {'etag': ['If-None-Match', 'If-Match', 'If-Range'], 'last-modified': ['If-Modified-Since', 'If-Unmodified-Since', 'If-Range'], 'set-cookie': ['Cookie'], 'content-location': [None], 'location': [None]}
+def echo_followups(rng, tier, tree, c, r):
+    """the follow-ups a client with a cache (or a download to resume) sends: validators taken from the answer just received - the instant the
+    file was last modified in every date spelling, one second before and after it, between it and now, now; the length the answer declared as
+    range bounds; every validator header the answer itself carried (ETag, Last-Modified, Set-Cookie) sent back unchanged"""
+    raw = r['writes'][0] if r['writes'] else r['recv']
+    resp = parse(raw) if raw else None
+    if resp is None: return []
+    out = []
+    t, e = c.target, c.entry
+    q = tier == 'quick'
+    def add(m, hs, ver='HTTP/1.1'): out.append(K.mk(tree, m, t, hs, version=ver, entry=e if rng.chance(3, 4) else _e4(rng), kind='echo-followup'))
+    lm = H.get(resp['headers'], 'Last-Modified-Unix-Epoch-Nanos')
+    now = H.get(resp['headers'], 'Date-Unix-Epoch-Nanos')
+    s_now = int(now[0]) // 10 ** 9 if now and now[0].isdigit() else None
+    instants = []
+    if lm and lm[0].isdigit():
+        s = int(lm[0]) // 10 ** 9
+        instants = [('mtime', s), ('mtime-1', s - 1), ('mtime+1', s + 1), ('mtime+3600', s + 3600), ('mtime-86400', s - 86400)]
+        if s_now is not None: instants += [('now', s_now), ('between', (s + s_now) // 2)]
+    elif s_now is not None:
+        instants = [('now', s_now), ('now-1', s_now - 1), ('now-86400', s_now - 86400)]
+    for label, s in instants:
+        d = _dates(s)
+        add('GET', [('If-Modified-Since', d['imf'])])
+        if label in ('mtime', 'now', 'mtime-1'):
+            for k in ('rfc850', 'asctime', 'iso', 'secs', 'lower', 'nozone'):
+                if q and not rng.chance(1, 2): continue
+                add('GET', [('If-Modified-Since', d[k])])
+            if lm: add('GET', [('If-Modified-Since', lm[0])]); add('GET', [('If-Modified-Since-Unix-Epoch-Nanos', lm[0])]); add('GET', [('If-Unmodified-Since-Unix-Epoch-Nanos', str(int(lm[0]) - 1))])
+            add('HEAD', [('If-Modified-Since', d['imf'])]); add('OPTIONS', [('If-Modified-Since', d['imf'])]); add('POST', [('If-Modified-Since', d['imf'])])
+            add('GET', [('if-modified-since', d['imf'])]); add('GET', [('If-Modified-Since', d['imf'])], ver='HTTP/1.0')
+            add('GET', [('If-Modified-Since', d['imf']), ('Origin', 'http://a')]); add('GET', [('If-Modified-Since', d['imf']), ('If-None-Match', '"nomatch"')]); add('GET', [('If-Modified-Since', d['imf']), ('Range', 'bytes=0-0')])
+            add('GET', [('If-Modified-Since', d['imf']), ('Cache-Control', 'no-cache')]); add('GET', [('If-Modified-Since', d['imf']), ('If-Modified-Since', 'Thu, 01 Jan 1970 00:00:00 GMT')])
+        add('GET', [('If-Unmodified-Since', d['imf'])])
+        add('GET', [('If-Range', d['imf']), ('Range', 'bytes=0-0')])
+        if rng.chance(1, 2): add('PUT', [('If-Unmodified-Since', d['imf'])]); add('GET', [('If-Range', d['imf']), ('Range', 'bytes=0-0,2-2')]); add('GET', [('If-Unmodified-Since', d['imf']), ('Range', 'bytes=0-0')])
+    cl = H.get(resp['headers'], 'Content-Length')
+    if cl and cl[0].isdigit():
+        n = int(cl[0])
+        for rv in ('bytes=0-%d' % max(n - 1, 0), 'bytes=%d-' % max(n - 1, 0), 'bytes=%d-' % n, 'bytes=0-%d' % n, 'bytes=-%d' % n, 'bytes=-%d' % (n + 1), 'bytes=%d-%d' % (n, n), 'bytes=0-0,%d-%d' % (max(n - 1, 0), max(n - 1, 0)), 'bytes=%d-%d' % (n // 2, n // 2)):
+            add(rng.choice(['GET', 'GET', 'HEAD']), [('Range', rv)])
+    for n, v in resp['headers']:
+        for back in ECHOED.get(n.lower(), []):
+            if back is None: out.append(K.mk(tree, 'GET', v, [], entry=e, kind='echo-followup')) if v.startswith('/') else None
+            else:
+                v2 = v.split(';')[0] if back == 'Cookie' else v
+                add('GET', [(back, v2)] + ([('Range', 'bytes=0-0')] if back == 'If-Range' else [])); add('HEAD', [(back, v2)])
+                if back in ('If-None-Match', 'If-Match'): add('GET', [(back, 'W/' + v2)]); add('GET', [(back, '"x", ' + v2)]); add('PUT', [(back, v2)])
+    return out
+
+def run_echo(tree, firsts, follow, env=None, with_model=True):
+    """ONE harness process answers the first requests, then the follow-ups built from its answers: the files (and their ages) are the same
+    for both.  Same result tuples as servecheck.run_batches."""
+    import subprocess
+    p = subprocess.Popen([C.HARNESS_BIN, 'serve'], stdin=subprocess.PIPE, stdout=subprocess.PIPE, stderr=subprocess.DEVNULL)
+    dead = [False]
+    def ask(line):
+        if dead[0]: return 'abort dead'
+        try:
+            p.stdin.write((line + '\n').encode()); p.stdin.flush()
+            while True:
+                ln = p.stdout.readline()
+                if not ln: dead[0] = True; return 'abort dead'
+                if ln.startswith(b'\x01'): return ln[1:].rstrip(b'\n').decode('utf-8', 'replace')
+        except (BrokenPipeError, OSError):
+            dead[0] = True; return 'abort dead'
+    setup = [tree.line(), S.env_line(env), 'manifest']
+    got = [ask(l) for l in setup]
+    tree.setup_ok = got[0] == 'ok' and got[1] == 'ok'
+    cases, impl = [], []
+    for c in firsts:
+        cases.append(c); impl.append(ask(c.line))
+    for c, il in list(zip(cases, impl)):
+        for f in follow(c, S.parse_result(il)):
+            cases.append(f); impl.append(ask(f.line))
+    man = ask('manifest')
+    tree.manifest_ok = (man == got[2])
+    try: p.stdin.close(); p.wait(timeout=30)
+    except Exception: p.kill()
+    model = None
+    if with_model:
+        mlines = setup + [c.line + ' et=' + C.hx(S.err_text(S.parse_result(il))) for c, il in zip(cases, impl)] + ['manifest']
+        model = S.run_stateful([C.MODEL_BIN], mlines)[0]
+    res = []
+    for k, (c, il) in enumerate(zip(cases, impl)):
+        ml = model[3 + k] if model else None
+        ci, cm = S.canon(il), (S.canon(ml) if ml is not None else None)
+        if cm is not None and cm.startswith('panic unlocated:') and ci.startswith('panic '): ci = cm
+        res.append((c, S.parse_result(il), ci, cm))
+    return res
+
+# ------------------------------------------------------------------------------------------------ the 500 path
+UNREADABLE = b'/proc/self/mem'     # a regular file by its mode whose read fails (EIO): the one way left to the 500 answers of the built-in pages
+def unreadable_tree(rng, variant):
+    """the server's own page names are links to a file that exists and cannot be read: the built-in controllers answer 500 (since links
+    are followed by the operating system the climbing link of the first pass is served, and nothing else reaches that status).  The model
+    knows nothing of /proc: these batches run on the real code only and are judged by the oracle alone."""
+    t = S.Tree(b'root')
+    root = b'root/'
+    t.file(root + b'a.txt', b'hello world').file(b'secret.txt', S.marker(b'secret.txt'))
+    own = [b'404.html', b'index.html', b'style.css', b'script.js', b'favicon.svg']
+    for i, nm in enumerate(own):
+        if variant == 0 or i == variant - 1: t.link(root + nm, UNREADABLE)
+    t.link(root + b'mem.lnk', UNREADABLE).link(root + b'null.lnk', b'/dev/null').link(root + b'sub/index.html', UNREADABLE).link(root + b'page.html', UNREADABLE)
+    t.names = [b'a.txt']
+    return t
+
+def unreadable_cases(rng, tier, tree):
+    cs = []
+    for t in ('/missing', '/', '/style.css', '/script.js', '/favicon.svg', '/index.html', '/404.html', '/mem.lnk', '/null.lnk', '/sub/', '/sub', '/page', '/page.html', '/a.txt', '/missing/x', 'x'):
+        for m in G.METHODS:
+            for hs in ([], [('Origin', 'http://a')], [('Range', 'bytes=0-0')], [('Origin', 'http://a'), ('Access-Control-Request-Method', 'PUT'), ('Access-Control-Request-Headers', 'X-A')], [('Range', 'bytes=0-0,2-3'), ('Save-Data', 'on')], [('Accept', 'application/json')]):
+                if m not in ('GET', 'HEAD', 'OPTIONS', 'POST') and (hs or not rng.chance(1, 3)): continue
+                for e in (ENTRIES if tier != 'quick' else (_e2(rng), rng.choice(['aexec', 'aexecl']))):
+                    if e.startswith('aexec') and not t.startswith('/'): continue
+                    cs.append(K.mk(tree, m, t, hs, entry=e, kind='own-files-unreadable'))
+    for ws in ('c:7', 'e:0', 'e:1'):
+        for t in ('/missing', '/'): cs.append(K.mk(tree, 'GET', t, [('Origin', 'http://a')], ws=ws, entry=_e2(rng), kind='own-files-unreadable'))
+    return cs
